@@ -1,0 +1,39 @@
+// Copyright 2022 Yahoo Inc.
+// Licensed under the terms of the Apache License 2.0. Please see LICENSE file in project root for terms.
+
+package shimagent
+
+import (
+	"fmt"
+	"io"
+	"sync"
+
+	"golang.org/x/crypto/ssh"
+)
+
+// upstreamSigner wraps a signer of the underlying agent that Signers hands out.
+// Such a signer talks to the underlying agent on the connection that every other
+// request of the shim agent uses (Forward writes to it directly), so its exchange
+// has to hold the server's mutex like any other.
+type upstreamSigner struct {
+	ssh.Signer
+	mu *sync.RWMutex
+}
+
+// Sign signs the data by the key in the underlying agent.
+func (s upstreamSigner) Sign(rand io.Reader, data []byte) (*ssh.Signature, error) {
+	s.mu.Lock()
+	defer s.mu.Unlock()
+	return s.Signer.Sign(rand, data)
+}
+
+// SignWithAlgorithm signs the data by the key in the underlying agent with the specified algorithm.
+func (s upstreamSigner) SignWithAlgorithm(rand io.Reader, data []byte, algorithm string) (*ssh.Signature, error) {
+	as, ok := s.Signer.(ssh.AlgorithmSigner)
+	if !ok {
+		return nil, fmt.Errorf("agent: signer does not support algorithm %q", algorithm)
+	}
+	s.mu.Lock()
+	defer s.mu.Unlock()
+	return as.SignWithAlgorithm(rand, data, algorithm)
+}
